@@ -140,3 +140,11 @@ Proof.
       cbn [app hist_ok run_events]. rewrite Es, B. eexists. split; [split; [exact Hev | exact A] | reflexivity]. }
   destruct (G evs init_sys os Hok Hr) as (os' & A & B). exists os'. auto.
 Qed.
+
+(* clean shutdown = flush, then stop: restart returns exactly the flushed system, counters included *)
+Theorem clean_shutdown y : reachable_c y -> recover (do_flush y) = Ok (do_flush y).
+Proof.
+  intros Hy. destruct (inv_flush y (reachable_inv_c y Hy)) as (r & Hrep & _ & _ & [G L]).
+  unfold do_flush in *. cbn [mem disk wal] in *. unfold recover. cbn [disk wal].
+  rewrite (replay_inert _ _ G L), flush_flush. reflexivity.
+Qed.
